@@ -219,3 +219,12 @@ Proof. vm_compute. split; reflexivity. Qed.
 Example C12_ex_product : product_ok ts_identity (thread ts_identity
   (TGroup GK_Plain (from_translate 3 4) ts_identity [TGroup GK_Plain (from_scale 2 2) ts_identity [TLeaf]; TLeaf])) = true.
 Proof. vm_compute. reflexivity. Qed.
+(* fd607e1: the root of a synthesised viewport clip path (marker.rs / use_node.rs clip_element / image.rs: one rectangle made by
+   Path::new_simple under identity transforms) goes through calculate_bounding_boxes like every other root - C12_parent_contains_children
+   applies unguarded; painting/marker/inheritance-2.svg: rectangle (0,0)-(20,20) *)
+Example C12_ex_synth_clip_root :
+  let rect := CLeaf {| lb_obj := mkbox 0 0 20 20; lb_abs := mkbox 0 0 20 20; lb_stroke := mkbox 0 0 20 20; lb_abs_stroke := mkbox 0 0 20 20 |} in
+  let r := calculate_bounding_boxes ts_identity [] dummy_boxes [rect] in
+  snd r = true /\ gb_obj (fst r) = mkbox 0 0 20 20 /\ gb_abs_layer (fst r) = mkbox 0 0 20 20 /\
+  chk_contains [] [rect] (fst r) = true /\ chk_contains [] [rect] dummy_boxes = false.
+Proof. vm_compute. repeat split. Qed.
